@@ -121,11 +121,11 @@ def main():  # noqa: C901, PLR0915
         target["digest"] = "corrupted"
     cases.append(c); exp.append(("digest of a repeated call altered", "FAIL", "same-term-different-result"))
     c = copy.deepcopy(base)
-    calls = [e for e in c["events"] if e["op"] not in ("create", "fill")]
+    calls = [e for e in c["events"] if e["op"] not in ("create", "fill", "rejected")]
     calls[0]["params_fp_after"] = "x"
     cases.append(c); exp.append(("params fingerprint changed by a call", "FAIL", "params-mutated"))
     c = copy.deepcopy(base)
-    calls = [e for e in c["events"] if e["op"] not in ("create", "fill")]
+    calls = [e for e in c["events"] if e["op"] not in ("create", "fill", "rejected")]
     calls[-1]["held_fp_after"] = "x"
     cases.append(c); exp.append(("a params object the user still holds changed by a later call", "FAIL", "held-params-mutated"))
     c = copy.deepcopy(base)
